@@ -68,7 +68,10 @@ func (x *Exec) paramTerms(fn *ssa.Function, st *State) []Term {
 			for _, bt := range x.eng.boxedTypes() {
 				switch underlying(bt).(type) {
 				case *types.Struct, *types.Slice:
+					saveU := x.refsOldUnknown
+					x.refsOldUnknown = tTrue
 					x.vc.assert(implies(eq(iType(t), x.vc.typeID(bt)), x.refsOld(x.vc.unbox(bt, iVal(t)), bt, 0)))
+					x.refsOldUnknown = saveU
 				}
 			}
 		}
@@ -150,8 +153,8 @@ func (x *Exec) atReturn(fr *Frame, st *State, vals []Term, pos token.Pos) {
 	// vacuity guard: this return is reachable under the assumptions made so far
 	x.oblige(fr, "cover", "return reachable", st, tFalse, pos)
 	for i, cl := range c.Ensures {
-		if len(cl.Tags) > 0 && x.eng.CurProp != "" && !anyCommon(cl.Tags, []string{x.eng.CurProp}) {
-			continue // clause belongs to another property's check
+		if skipClause(cl, x.eng) {
+			continue // clause belongs to another property's check, or to the thorough tier only
 		}
 		t := x.evalGhost(fr, x.ghostOf(c, cl.Ghost), args, nil, st, fr.entry)
 		x.curGhost = cl.Ghost
@@ -555,4 +558,25 @@ func scalarParams(sig *types.Signature) bool {
 		}
 	}
 	return true
+}
+
+// skipClause: clause tags are property ids (checked only for those properties) and/or
+// "thorough" (checked only in the thorough tier; still assumed by callers in both tiers).
+func skipClause(cl *Clause, e *Engine) bool {
+	var props []string
+	thorough := false
+	for _, t := range cl.Tags {
+		if t == "thorough" {
+			thorough = true
+		} else {
+			props = append(props, t)
+		}
+	}
+	if thorough && e.Tier != "thorough" {
+		return true
+	}
+	if len(props) > 0 && e.CurProp != "" && !anyCommon(props, []string{e.CurProp}) {
+		return true
+	}
+	return false
 }
